@@ -31,6 +31,17 @@ def run_property(pid, tier, seed, source=None, quiet=False, with_controls=True):
         if hasattr(mod, "controls"):
             mod.controls(ctx)
     mod.run(ctx)
+    if hasattr(mod, "run_warnings_as_errors") and calls_warnings_warn(ctx.src):
+        # second pass under `python -W error`: every warnings.warn() in the tree raises its category.  Only for trees that warn at all.
+        from . import ae as _ae
+        _ae.WARNINGS_AS_ERRORS = True
+        res.mode = "warnings-as-errors"
+        try:
+            mod.run_warnings_as_errors(ctx)
+        finally:
+            _ae.WARNINGS_AS_ERRORS = False
+            res.mode = None
+        res.note("the tree calls warnings.warn(): the mutator obligations were evaluated a second time with warnings turned into errors (python -W error)")
     if with_controls and tier == "thorough" and source is None and os.environ.get("VERIF_SELFTEST") == "1":
         # both-ways self-test of this property's checker against the current tree (in memory); reported, not gating.  Since the
         # history engines it costs minutes per property, so it is opt-in (VERIF_SELFTEST=1) or run for everything at once with
@@ -44,6 +55,22 @@ def run_property(pid, tier, seed, source=None, quiet=False, with_controls=True):
         except Exception as e:  # noqa: BLE001
             res.note(f"self-test could not run: {type(e).__name__}: {e}")
     return res
+
+
+def calls_warnings_warn(src):
+    """does the package call warnings.warn (or a `warn` imported from warnings) anywhere?"""
+    import ast
+    for rel in src.relpaths():
+        try:
+            tree = src.tree(rel)
+        except SourceError:
+            continue
+        for n in ast.walk(tree):
+            if isinstance(n, ast.Call):
+                f = n.func
+                if (isinstance(f, ast.Attribute) and f.attr == "warn" and isinstance(f.value, ast.Name) and f.value.id in ("warnings", "_warnings")) or (isinstance(f, ast.Name) and f.id in ("warn", "_warn")):
+                    return True
+    return False
 
 
 def main(argv=None):
